@@ -15,6 +15,7 @@ import CbiVerif.Drv.Compilers
 import CbiVerif.Drv.Regex
 import CbiVerif.Drv.Eval
 import CbiVerif.Drv.EvalLayout
+import CbiVerif.Drv.CondFrag
 import CbiVerif.Drv.CodeBase
 import CbiVerif.Drv.Order
 import CbiVerif.Drv.Fortran
@@ -45,6 +46,7 @@ def handlerTable : List (String × (Json → Json)) :=
   CbiVerif.Drv.Regex.handlers ++
   CbiVerif.Drv.Eval.handlers ++
   CbiVerif.Drv.EvalLayout.handlers ++
+  CbiVerif.Drv.CondFrag.handlers ++
   CbiVerif.Drv.CodeBase.handlers ++
   CbiVerif.Drv.Order.handlers ++
   CbiVerif.Drv.Fortran.handlers ++
